@@ -1,7 +1,7 @@
 #!/bin/bash
 # repeats the cache engine's self-test job at GOMAXPROCS=16 until a worker fails (hunting a rare hang)
 cd "$(dirname "$0")/.."
-./check --build >/dev/null 2>&1
+VERIF_BUILD_DIR=$(pwd)/.build/keep ./check --build >/dev/null 2>&1
 mkdir -p .work/hunt
 cat > .work/hunt/job.json <<J
 {"mode":"batch","prop":"C08","profiles":["mixed","collide","overwrite","capacity","delete","single","singlettl","ttl","rewrite","close","metrics","agree"],"seed":4242,"start":0,"stride":1,"max_runs":${RUNS:-800},"out":"$(pwd)/.work/hunt/out.jsonl","digest":true}
@@ -9,7 +9,7 @@ J
 for i in $(seq 1 ${ITER:-60}); do
   for w in 1 2 3 4; do
     ( rm -f .work/hunt/out$w.jsonl; sed "s#out.jsonl#out$w.jsonl#" .work/hunt/job.json > .work/hunt/job$w.json
-      GOMAXPROCS=${PROCS:-16} VERIF_JOB=$(pwd)/.work/hunt/job$w.json .build/cachesim.test -test.run '^TestWorker$' -test.timeout 0 > .work/hunt/log$w.txt 2>&1 || { echo "FAILED iter $i worker $w"; head -c 60000 .work/hunt/log$w.txt; } ) &
+      GOMAXPROCS=${PROCS:-16} VERIF_JOB=$(pwd)/.work/hunt/job$w.json .build/keep/cachesim.test -test.run '^TestWorker$' -test.timeout 0 > .work/hunt/log$w.txt 2>&1 || { echo "FAILED iter $i worker $w"; head -c 60000 .work/hunt/log$w.txt; } ) &
   done
   wait
   echo "iter $i done"
